@@ -1,2 +1,59 @@
-(* C10 — placeholder while the model is validated; theorems follow *)
-From QV.Model Require Import Base Matrix Problems.
+(* C10 — problem-class encodings have the stated ground states and decode consistently.
+   Statements only; proofs in Proofs/ProblemsProofs.v.
+
+   Proved here, for every instance: VertexCover (value of the QUBO; with A > B > 0 every ground state is a minimum
+   vertex cover and the ground energy is B * its size), NumberPartitioning (value of the QUSO; ground states are the
+   splits of least |difference|, even splits with energy 0 when one exists; is_solution_valid), AlternatingSectorsChain
+   (open chain: value; ground states are the uniform states).  SetCover, BILP, JobSequencing, GraphPartitioning and the
+   periodic chain are modelled (Model/Problems.v) and tied to /repo by exact comparison of the produced matrices and by
+   combinatorial oracles on the implementation (harness/props/c10.py); no theorem about their ground states is claimed. *)
+From QV.Model Require Import Base Matrix Arith Expr Extrema Sat PCBO Logic Convert PCSO Problems.
+From QV.Proofs Require Import BaseProofs KeyProofs ArithProofs PenaltyArith PCBOProofs ProblemsProofs.
+Open Scope Q_scope.
+
+(* ---- VertexCover ---- *)
+Theorem C10_vc_value : forall N edges A B Qf, vc_to_qubo N edges A B = Ok Qf -> ~ A == 0 ->
+  exists Gs, Forall2 pen_ok edges Gs /\ forall x, boolean_env x -> eval x (tm Qf) == B * size N x + A * sum_pens Gs x.
+Proof. exact vc_value. Qed.
+Print Assumptions C10_vc_value.
+Theorem C10_vc_ground : forall N edges A B Qf x, vc_to_qubo N edges A B = Ok Qf -> 0 < B -> B < A ->
+  boolean_env x -> (forall x', boolean_env x' -> eval x (tm Qf) <= eval x' (tm Qf)) ->
+  (forall e, In e edges -> covered x e)
+  /\ eval x (tm Qf) == B * size N x
+  /\ forall c, boolean_env c -> (forall e, In e edges -> covered c e) -> size N x <= size N c.
+Proof. exact vc_ground. Qed.
+Print Assumptions C10_vc_ground.
+
+(* ---- NumberPartitioning ---- *)
+Theorem C10_np_value : forall S A H, np_to_quso S A = Ok H -> forall z, spin_env z -> eval z (tm H) == A * np_diff S z * np_diff S z.
+Proof. exact np_value. Qed.
+Print Assumptions C10_np_value.
+Theorem C10_np_ground : forall S A H z, np_to_quso S A = Ok H -> 0 < A -> spin_env z ->
+  (forall z', spin_env z' -> eval z (tm H) <= eval z' (tm H)) ->
+  forall z', spin_env z' -> np_diff S z * np_diff S z <= np_diff S z' * np_diff S z'.
+Proof. exact np_ground. Qed.
+Print Assumptions C10_np_ground.
+Theorem C10_np_ground_even : forall S A H z z0, np_to_quso S A = Ok H -> 0 < A -> spin_env z ->
+  (forall z', spin_env z' -> eval z (tm H) <= eval z' (tm H)) ->
+  spin_env z0 -> np_diff S z0 == 0 -> np_diff S z == 0 /\ eval z (tm H) == 0.
+Proof. exact np_ground_even. Qed.
+Print Assumptions C10_np_ground_even.
+Theorem C10_np_valid : forall S (z : label -> Z), (forall i, z i = 1%Z \/ z i = (-1)%Z) ->
+  np_valid S z = true <-> np_diff S (fun i => inject_Z (z i)) == 0.
+Proof. exact np_valid_iff. Qed.
+Print Assumptions C10_np_valid.
+
+(* ---- AlternatingSectorsChain, open boundary ---- *)
+Theorem C10_asc_value : forall N chain min_s max_s H, asc_to_quso N chain min_s max_s false = Ok H ->
+  forall z, spin_env z -> eval z (tm H) == chain_sum (asc_strength chain min_s max_s) z (seq 0 (N - 1)).
+Proof. exact asc_value. Qed.
+Print Assumptions C10_asc_value.
+Theorem C10_asc_ground : forall N chain min_s max_s H z, asc_to_quso N chain min_s max_s false = Ok H ->
+  0 < min_s -> 0 < max_s -> spin_env z -> (forall z', spin_env z' -> eval z (tm H) <= eval z' (tm H)) ->
+  forall q, (q < N - 1)%nat -> z q * z (S q) == 1.
+Proof. exact asc_ground. Qed.
+Print Assumptions C10_asc_ground.
+
+(* non-vacuity: the path 0-1-2 with A = 2, B = 1 *)
+Example C10_example : exists Qf, vc_to_qubo 3 [(0, 1); (1, 2)]%nat 2 1 = Ok Qf /\ kd Qf = KQuboM /\ (0 < length (tm Qf))%nat.
+Proof. eexists. vm_compute. repeat split. apply Nat.lt_0_succ. Qed.
